@@ -42,7 +42,9 @@ structure SpecTableOK (ft : Spec.Fse.Table) : Prop where
   entries : ∀ e ∈ ft.entries.toList, e.baseline + 2 ^ e.nbBits ≤ 2 ^ ft.accLog
 
 /-- every table the weights reader can obtain (max log 6, max symbol 255) is well formed; proved in
-`Proofs/BlkFse` (`specFseOK`), used as a hypothesis in `Proofs/BlkHuf` -/
+`Proofs/BlkFseSpec` (`specFseOK`).  (Was a hypothesis of `Proofs/BlkHuf` while the Huffman model read
+its compressed weights through the Spec-level FSE table; `read_weights` now uses the shared
+`Fse.DTable` / `Fse.Decoder` / `BitReaderRev` models and `Proofs/BlkHufWeights` needs no hypothesis.) -/
 def SpecFseOK : Prop :=
   ∀ (bytes : List Nat) (al : Nat) (probs : List Int) (used : Nat) (ft : Spec.Fse.Table),
     Spec.Fse.readDescription bytes Gen.hufWeightsMaxLogDec Gen.hufFseMaxSymbol = some (al, probs, used) →
